@@ -108,7 +108,7 @@ pub fn poke_raw(m: &mut MemoryAreas, addr: u16, v: u8) {
     0xD000..=0xDFFF => m.work_ram[0x1000 * m.wram_bank + (a & 0xfff)] = v,
     0xFE00..=0xFE9F => m.oam_ram[a & 0xff] = v,
     0xFF80..=0xFFFE => m.high_ram[a & 0x7f] = v,
-    0xFFFF => m.io.interrupt_mask = v,
+    0xFFFF => crate::mem::memory_write_byte(m as *mut MemoryAreas, 0xFFFF, v), // through the bus: IE may keep bits elsewhere
     _ => {},
   }
 }
@@ -124,7 +124,7 @@ pub fn peek_raw(m: &MemoryAreas, addr: u16) -> u8 {
     0xD000..=0xDFFF => m.work_ram[0x1000 * m.wram_bank + (a & 0xfff)],
     0xFE00..=0xFE9F => m.oam_ram[a & 0xff],
     0xFF80..=0xFFFE => m.high_ram[a & 0x7f],
-    0xFFFF => m.io.interrupt_mask,
+    0xFFFF => memory_read_byte(m as *const MemoryAreas, 0xFFFF),
     _ => 0,
   }
 }
@@ -274,9 +274,10 @@ impl StepWorld {
       }
     }
     if touched_io {
-      let ie = self.core.memory.io.interrupt_mask;
+      let ie = memory_read_byte(&self.core.memory as *const MemoryAreas, 0xFFFF);
       self.core.memory.io = IO::new();
-      self.core.memory.io.interrupt_mask = ie;
+      crate::mem::memory_write_byte(&mut self.core.memory as *mut MemoryAreas, 0xFFFF, ie);
+      crate::mem::memory_write_byte(&mut self.core.memory as *mut MemoryAreas, 0xFF46, 0xFF);
       self.core.memory.oam_dma = None;
     }
   }
